@@ -241,6 +241,51 @@ pub fn filter_switch_cases(o: &mut Out, rng: &mut Rng, thorough: bool) {
     }
 }
 
+/// the whole-image call with every filter setting over every colour type / bit depth, rows given with arbitrary bits in the unused low bits of
+/// the last byte of sub-byte rows: whatever the encoder does with those bits, it must filter each row against the row above AS IT WRITES IT -
+/// the pixels (padding bits masked) must come back, through the crate's decoder and through the reference decoder
+pub fn whole_image_filter_cases(o: &mut Out, rng: &mut Rng, thorough: bool) {
+    for k in 0..(if thorough { 1800 } else { 180 }) {
+        let (color, depth) = COLOR_DEPTHS[(k % 15) as usize];
+        let (w, h) = (rng.range(1, 13) as u32, rng.range(2, 7) as u32);
+        let palette = if color == 3 { Some((0..3 * (1usize << depth.min(8))).map(|i| (i * 5) as u8).collect::<Vec<u8>>()) } else { None };
+        let rb = row_bytes(color, depth, w as u64) as usize;
+        let data = rng.bytes(rb * h as usize);
+        let filter = ((k / 15) % 6) as u8;
+        let comp = 2 + ((k / 3) % 9) as u8;
+        o.mark(&format!("whole-image filter c{}d{} {}x{} f{} comp{} {}", color, depth, w, h, filter, comp, hex(&data)));
+        let sink = Sink::new(0, None, false);
+        let r = guarded(|| -> Result<(), String> {
+            let mut e = png::Encoder::new(sink.clone(), w, h);
+            e.set_color(color_of(color));
+            e.set_depth(depth_of(depth));
+            if let Some(p) = &palette { e.set_palette(p.clone()); }
+            set_compression(&mut e, comp);
+            e.set_filter(filter_of(filter));
+            let mut wr = e.write_header().map_err(|er| format!("{:?}", er))?;
+            wr.write_image_data(&data).map_err(|er| format!("image: {:?}", er))?;
+            wr.finish().map_err(|er| format!("{:?}", er))
+        });
+        o.direct_checks += 1;
+        o.count("whole-image-filter-settings");
+        match r {
+            Ok(Ok(())) => {}
+            Ok(Err(e)) => { o.violation(viol("encoder-refused-a-legal-image", vec![("why", jstr(&e))])); continue; }
+            Err(m) => { o.violation(viol("encoder-panicked", vec![("why", jstr(&m))])); continue; }
+        }
+        let bytes = sink.0.borrow().accepted.clone();
+        let row_bits = w as usize * samples(color) * depth as usize;
+        let want = crate::ops::mask_padding(&data, rb, row_bits);
+        let (end, frames) = decode_frames(&bytes, Opts::default(), 0, 0);
+        let own_ok = frames.first().map_or(false, |f| crate::ops::mask_padding(&f.1, rb, row_bits) == want);
+        let ref_ok = match reference_decode(&bytes, w, h, color, depth) { Ok((px, _)) => crate::ops::mask_padding(&px, rb, row_bits) == want, Err(_) => false };
+        if !own_ok || !ref_ok {
+            o.violation(viol(if !own_ok { "roundtrip-through-own-decoder-differs" } else { "roundtrip-through-reference-decoder-differs" }, vec![("why", jstr(&format!("whole-image call, filter setting {}, compression {}; end {}", filter, comp, end))),
+                ("given", jstr(&hex(&data))), ("emitted", jstr(&hex(&bytes)))]));
+        }
+    }
+}
+
 /// StreamWriter::write call by call (still images): the number of bytes every call accepts and the bytes handed to the compressor
 /// (= the inflated IDAT stream) vs Model/StreamWriterBuf.v sw_trace
 fn stream_trace_cases(o: &mut Out, rng: &mut Rng, thorough: bool) {
@@ -435,6 +480,7 @@ pub fn run(a: &Args) {
         o.count("large-chunk-buffers");
     }
     with_info_cases(&mut o, &mut rng, thorough);
+    whole_image_filter_cases(&mut o, &mut rng, thorough);
     filter_switch_cases(&mut o, &mut rng, thorough);
     streamed_animation_cases(&mut o, &mut rng, thorough);
     stream_trace_cases(&mut o, &mut rng, thorough);
